@@ -815,10 +815,33 @@ func DeleteVirtualTable(tname *string, orgid int64) error {
 	if err := scanner.Err(); err != nil {
 		return utils.TeeErrorf("DeleteVirtualTable : Error while scanning file: %v, err: %v", vTableFileName, err)
 	}
-	errW := os.WriteFile(vTableFileName, []byte(store), 0644)
+	// Write the remaining names to a temporary file in the same directory and rename it over
+	// the old file, so that an interruption leaves either the old or the new list of names
+	// (never a truncated file, which would hide every index of the org).
+	errW := writeFileAtomically(vTableFileName, []byte(store))
 	if errW != nil {
 		log.Errorf("DeleteVirtualTable : Error writing to vtableFilename=%v, Error=%v", vTableFileName, errW)
 		return errW
 	}
 	return nil
+}
+
+func writeFileAtomically(fileName string, data []byte) error {
+	tmpFileName := fileName + ".tmp"
+	fd, err := os.OpenFile(tmpFileName, os.O_WRONLY|os.O_CREATE|os.O_TRUNC, 0644)
+	if err != nil {
+		return err
+	}
+	if _, err = fd.Write(data); err != nil {
+		fd.Close()
+		return err
+	}
+	if err = fd.Sync(); err != nil {
+		fd.Close()
+		return err
+	}
+	if err = fd.Close(); err != nil {
+		return err
+	}
+	return os.Rename(tmpFileName, fileName)
 }
